@@ -21,7 +21,7 @@ def _setup(chk, model):
     ev = SymEval(model)
     r = ev.run_function(fi)
     for n in ("step", "_scan_body_seq", "episode"):
-        if r.env.get(n, T.NONE)[0] != "closure":
+        if r.env.get(model.local_name(f"artificial._generate_graphs.{n}"), T.NONE)[0] != "closure":
             raise AnalysisError(f"closure {n} not found in _generate_graphs")
     return ev, r
 
@@ -33,7 +33,7 @@ def rule_scan(chk: Check, model, rule, ev=None, r=None):
     f_step = model.func("artificial._generate_graphs.step")
     # ---------------------------------------------------------------- step
     carry = ("tuple", (S("ts_prev"), S("rng_prev")))
-    out = ev.invoke(r.env["step"], [], r.frame, kwargs=[("name", S("name")), ("_generate_graphs__ts_max" if False else "__ts_max", S("TSMAX")), ("carry", carry), ("i", S("i"))])
+    out = ev.invoke(r.env[model.local_name("artificial._generate_graphs.step")], [], r.frame, kwargs=[("name", S("name")), ("_generate_graphs__ts_max" if False else "__ts_max", S("TSMAX")), ("carry", carry), ("i", S("i"))])
     ok = out[0] == "tuple" and len(out[1]) == 2 and out[1][0][0] == "tuple" and out[1][1][0] == "obj" and out[1][1][1] == "Vertex"
     if not ok:
         chk.unknown(rule, "step", f"step returns {T.show(out)[:200]}", chk.loc(f_step))
@@ -72,7 +72,7 @@ def run(chk: Check, model):
     # ---------------------------------------------------------------- tie rule
     f_sb = model.func("artificial._generate_graphs._scan_body_seq")
     n0 = len(ev.events)
-    out = ev.invoke(r.env["_scan_body_seq"], [S("skip"), S("ts_start"), S("seq"), S("ts_recv")], r.frame)
+    out = ev.invoke(r.env[model.local_name("artificial._generate_graphs._scan_body_seq")], [S("skip"), S("ts_start"), S("seq"), S("ts_recv")], r.frame)
     wl = [e for e in ev.events[n0:] if e.kind == "call" and e.name == "jax.lax.while_loop"]
     if len(wl) != 1 or out[0] != "tuple":
         chk.unknown("C12.tie", "search loop", "expected one lax.while_loop in _scan_body_seq", chk.loc(f_sb))
@@ -121,10 +121,12 @@ def run(chk: Check, model):
     # ---------------------------------------------------------------- episode: augment, masks, rejects
     f_ep = model.func("artificial._generate_graphs.episode")
     n0 = len(ev.events)
-    ev.invoke(r.env["episode"], [S("rng_eps"), S("_graphs"), S("_ts_max")], r.frame)
+    ev.invoke(r.env[model.local_name("artificial._generate_graphs.episode")], [S("rng_eps"), S("_graphs"), S("_ts_max")], r.frame)
     sub = [e for e in ev.events[n0:]]
-    vst = [e for e in sub if e.kind == "store_sub" and e.name == "vertices" and e.func == f_ep.qualname]
-    est = [e for e in sub if e.kind == "store_sub" and e.name == "edges" and e.func == f_ep.qualname]
+    # the two local tables of an episode are recognised by what is stored: vertex sets come out of a scan, edges are Edge objects
+    loc_st = [e for e in sub if e.kind == "store_sub" and e.func == f_ep.qualname and not e.name.startswith("self.")]
+    vst = [e for e in loc_st if e.term[0] == "index" and e.term[1][0] == "call" and T.call_name(e.term[1]) == "jax.lax.scan"]
+    est = [e for e in loc_st if e.term[0] == "obj" and e.term[1] == "Edge"]
     raises = [e for e in sub if e.kind == "raise" and e.func == f_ep.qualname]
     for what, sts, existing in (("vertices", vst, "_graphs.vertices"), ("edges", est, "_graphs.edges")):
         if len(sts) != 1:
@@ -176,7 +178,7 @@ def run(chk: Check, model):
             ph = [x for x in T.walk(init) if x[0] == "call" and T.call_name(x) == "distrax.Deterministic"]
             ok = ok and len(ph) >= 1 and all(dict(x[3]).get("loc") is not None and dict(x[3])["loc"][0] == "attr" and dict(x[3])["loc"][2] == "phase" for x in ph)
             cl = ev.closures.get(sc.args[0][1]) if sc.args[0][0] == "closure" else None
-            ok = ok and cl is not None and cl.kind == "partial" and cl.inner == r.env["step"] and len(cl.bound_args) == 2 and cl.bound_args[0] == vst[0].key and cl.bound_args[1] == S("_ts_max")
+            ok = ok and cl is not None and cl.kind == "partial" and cl.inner == r.env[model.local_name("artificial._generate_graphs.step")] and len(cl.bound_args) == 2 and cl.bound_args[0] == vst[0].key and cl.bound_args[1] == S("_ts_max")
         chk.add("C12.scan", "first start = the node's phase; scanned with step(name, horizon)", bool(ok), "vertices[n] must be scan(partial(step, n, _ts_max), (phase sample, rng), arange(num_steps))[1] "
                 "with the phase distribution Deterministic(loc=node.phase)", chk.loc(f_ep))
     # edge construction
@@ -210,7 +212,7 @@ def run(chk: Check, model):
                     # scan inputs: skip flag of this connection, receiver start times, arrival times
                     cl = ev.closures.get(sc2[0].args[0][1]) if sc2[0].args[0][0] == "closure" else None
                     conn = None
-                    okc = cl is not None and cl.kind == "partial" and cl.inner == r.env["_scan_body_seq"] and len(cl.bound_args) == 2
+                    okc = cl is not None and cl.kind == "partial" and cl.inner == r.env[model.local_name("artificial._generate_graphs._scan_body_seq")] and len(cl.bound_args) == 2
                     if okc:
                         skipt, tst = cl.bound_args
                         okc = skipt[0] == "attr" and skipt[2] == "skip" and tst[0] == "attr" and tst[2] == "ts_start" and tst[1][0] == "index" and tst[1][2] == i_
@@ -235,7 +237,8 @@ def run(chk: Check, model):
                 else:
                     chk.unknown("C12.mask", "assignment scan", "expected one scan over the arrival times", chk.loc(f_ep))
     # communication delay table keyed by (sender, receiver) — and every connection of every node is covered
-    st = [e for e in r.events if e.kind == "store_sub" and e.name in ("communication_delays", "connections") and e.func == fi.qualname]
+    st = [e for e in r.events if e.kind == "store_sub" and e.func == fi.qualname and e.key is not None and e.key[0] == "tuple" and len(e.key[1]) == 2 and len(e.loops) == 2
+          and not (e.term[0] == "obj" and e.term[1] == "Edge")]
     ok = len(st) == 2 and st[0].key == st[1].key and st[0].key[0] == "tuple"
     if ok:
         k = st[0].key[1]
